@@ -851,6 +851,12 @@ func (fr *Frame) discoverEffects(body func(sub edgeMap), base *State, recFrame *
 	check = func(st *State) {
 		if st.epoch != base.epoch {
 			eff.all = true
+			// after a havoc-everything event the heaps map only holds re-materialised entries: the keys the body
+			// really writes are taken from the write recorder instead
+			if st.alloc.S != base.alloc.S {
+				eff.allocs = true
+			}
+			return
 		}
 		for k, t := range st.heaps {
 			if bt, ok := base.heaps[k]; !ok || bt.S != t.S {
